@@ -1,5 +1,5 @@
 import CollectionsC.Properties.C01Sized
-import CollectionsC.Proofs.ArraySized7
+import CollectionsC.Proofs.ArraySized8
 /-! # C20 (sized array part) — growth is geometric and the capacity invariants always hold
 
 Statements only.  `Inv` is preserved by every call (`C01Sized.C01_sized`), so its conjuncts hold in
@@ -49,10 +49,14 @@ theorem trim_minimum (a : ArraySized) (m : Mem) (h : a.Inv) :
 
 /-- **appends_realloc_log**: with a growth function that at least doubles (the default factor 2),
 appending any `n` records to an array holding `size` records — under any refusal schedule — performs
-at most `log2 (size + n) + 1` successful allocator calls, whatever the initial capacity ≥ 1 -/
+at most `log2 (size + n) + 1` successful allocator calls (counted on the array's own triple), whatever the initial capacity ≥ 1.
+The hypothesis is satisfiable (`grow := fun c => 2 * c`, see the `example`s below); beyond the size
+limit the model refuses with `CC_ERR_MAX_CAPACITY` without allocating, so the bound still holds.
+Open: expansion factors in (1, 2) and the `capacity + 1` fallback are not covered by this theorem
+(measured by the correspondence only). -/
 theorem appends_realloc_log (a : ArraySized) (xs : List (Buf Nat)) (m : Mem) (h : a.Inv)
     (hx : ∀ x ∈ xs, x.length = a.dataLen) (hd : ∀ c, 2 * c ≤ a.grow c) :
-    (a.addAll xs m).2.nalloc - m.nalloc ≤ Nat.log2 (a.size + xs.length) + 1 :=
+    cnt (a.addAll xs m).2 a.triple - cnt m a.triple ≤ Nat.log2 (a.size + xs.length) + 1 :=
   addAll_realloc_log a xs m h hx hd
 
 /-- the capacity process behind it: under doubling, `k ≥ 1` re-allocations during `n` appends force
@@ -60,8 +64,8 @@ theorem appends_realloc_log (a : ArraySized) (xs : List (Buf Nat)) (m : Mem) (h 
 theorem appends_doubling (a : ArraySized) (xs : List (Buf Nat)) (m : Mem) (h : a.Inv)
     (hx : ∀ x ∈ xs, x.length = a.dataLen) (hd : ∀ c, 2 * c ≤ a.grow c) :
     (a.addAll xs m).1.Inv ∧
-    (1 ≤ (a.addAll xs m).2.nalloc - m.nalloc →
-      2 ^ ((a.addAll xs m).2.nalloc - m.nalloc - 1) * a.capacity ≤ a.size + xs.length - 1) :=
+    (1 ≤ cnt (a.addAll xs m).2 a.triple - cnt m a.triple →
+      2 ^ (cnt (a.addAll xs m).2 a.triple - cnt m a.triple - 1) * a.capacity ≤ a.size + xs.length - 1) :=
   ⟨(addAll_doubling xs a m h hx hd).1, (addAll_doubling xs a m h hx hd).2.2⟩
 
 /-- no byte-count wrap: a growth whose buffer would exceed `CC_MAX_ELEMENTS` bytes is refused with
@@ -72,7 +76,12 @@ theorem growth_no_byte_wrap (a : ArraySized) (m : Mem) (h : a.Inv) :
     ((a.expandCapacity m).1 = .errMaxCapacity → (a.expandCapacity m).2 = (a, m)) :=
   C01Sized.C20_sized_no_byte_wrap a m h
 
-/-! Non-vacuity of the doubling hypothesis: the default factor 2. -/
+/-! Non-vacuity: the default factor 2 satisfies the doubling hypothesis, on a concrete state, and 5
+appends from capacity 1 perform 3 allocations (`log2 (1 + 5) + 1 = 3`). -/
 example : ∀ c, 2 * c ≤ (fun c => 2 * c) c := fun _ => Nat.le_refl _
+example :
+    let a : ArraySized := { dataLen := 1, size := 1, capacity := 1, grow := fun c => 2 * c, buf := [7] }
+    a.Inv ∧ (a.addAll [[1], [2], [3], [4], [5]] { live := 2 }).2.nalloc = 3 ∧
+    (a.addAll [[1], [2], [3], [4], [5]] { live := 2 }).1.capacity = 8 := by decide
 
 end CC.Properties.C20Sized
